@@ -385,3 +385,45 @@ def setzeros_accesses(csup: str) -> str:
     if not out:
         raise Closed('bitspan::setZeros: no access found')
     return '[' + '; '.join(out) + ']'
+
+
+# ---- C++ serializer: check / access events, and "every store goes through a checked bitspan member" ----
+
+CPP_SER_MEMBERS_OK = {'size', 'offset', 'offset_bytes_ceil', 'padAndMoveToAlignment', 'setZeros', 'setBit', 'add_offset', 'subspan',
+                      'offset_alings_to', 'offset_alings_to_byte'}
+
+
+def cpp_ser_facts(macro, cser: str, csup: str) -> typing.Tuple[typing.Dict[str, str], bool]:
+    def events(body, checks, accesses):
+        ev = []
+        for pat in checks:
+            ev += [(m.start(), 'EvCheck') for m in re.finditer(pat, body)]
+        for pat in accesses:
+            ev += [(m.start(), 'EvAccess') for m in re.finditer(pat, body)]
+        return '[' + '; '.join(k for _, k in sorted(ev)) + ']'
+    acc = [r'out_buffer\.set\w*', r'out_buffer\.padAndMoveToAlignment', r'_serialize_any\s*\(', r'_serialize_integer\s*\(', r'for\s*\(', r'\bserialize\s*\(']
+    evs = {
+        'cpp_ser_impl': events(macro(cser, '_serialize_impl'), [r'return\s+-nunavut::support::Error::SerializationBufferTooSmall'], acc),
+        'cpp_ser_vla': events(macro(cser, '_serialize_variable_length_array'), [r'return\s+-nunavut::support::Error::SerializationBadArrayLength'], acc),
+    }
+    for name, pat_stores in (('setBit', [r'copyTo\s*\(']), ('setUxx', [r'copyTo\s*\(']), ('setZeros', [r'data_\[', r'memset\s*\('])):
+        m = re.search(r'inline VoidResult bitspan::%s\([^)]*\)\s*\{(.*?)\n\}' % name, csup, flags=re.S)
+        if not m:
+            raise Closed('bitspan::%s not found' % name)
+        evs['cpp_' + name] = events(m.group(1), [r'return\s+-Error::SerializationBufferTooSmall'], pat_stores)
+    # every use of out_buffer in the serializer template is one of the checked members / pure cursor functions
+    used = set(re.findall(r'out_buffer\.(\w+)', cser))
+    used |= {'setUxx', 'setIxx'} if re.search(r"out_buffer\.set\{\{\s*'U' if t is UnsignedIntegerType else 'I'\s*\}\}xx\(", cser) else set()
+    ok = True
+    for u in used:
+        if u in CPP_SER_MEMBERS_OK or u in ('setUxx', 'setIxx', 'set', 'setF'):
+            continue
+        ok = False
+    if re.search(r'aligned_ptr|memcpy|memmove|memset|\.data\(\)|out_buffer\s*\[', cser):
+        ok = False
+    # setIxx / setF* delegate to setUxx
+    for name in ('setIxx', 'setF16', 'setF32', 'setF64'):
+        m = re.search(r'inline VoidResult bitspan::%s\([^)]*\)\s*\{(.*?)\n\}' % name, csup, flags=re.S)
+        if not m or not re.search(r'return\s+set[UI]xx\(', m.group(1)) or re.search(r'data_\[|memset|copyTo', m.group(1)):
+            ok = False
+    return evs, ok
